@@ -29,6 +29,18 @@ def _str_keys_of_dicts(fn):
     return out
 
 
+AST_FILE = "nemoguardrails/colang/v2_x/lang/colang_ast.py"
+
+
+def repaired():
+    """True when the tree has `flow_argument_key` (the corrective fix for parameters named like internal StartFlow keys)."""
+    try:
+        find_def(parse(AST_FILE), "flow_argument_key")
+        return True
+    except TieBroken:
+        return False
+
+
 def run():
     sm, fl, ex, tr, ev = parse(SM), parse(FL), parse(EX), parse(TR), parse(EV)
     fns = {
@@ -60,4 +72,13 @@ def run():
         raise TieBroken("finished_event no longer maps _return_value to return_value")
     if "arguments.return_value" not in ast.unparse(fns["_expand_match_element"]):
         raise TieBroken("_expand_match_element no longer assigns `$ref.arguments.return_value`")
-    return {"fingerprints": {k: fingerprint(v) for k, v in fns.items()}, "reserved_start_keys": sorted(start_keys)}
+    if repaired():
+        # the repaired tree names the internal keys itself: they must be the model's
+        consts = [n for n in ast.walk(parse(AST_FILE)) if isinstance(n, ast.Assign) and any(isinstance(t, ast.Name) and t.id == "INTERNAL_FLOW_EVENT_ARGUMENTS" for t in n.targets)]
+        names = {c.value for c in ast.walk(consts[0]) if isinstance(c, ast.Constant) and isinstance(c.value, str)} if consts else set()
+        if names != MODEL_RESERVED:
+            raise TieBroken(f"INTERNAL_FLOW_EVENT_ARGUMENTS {sorted(names)} differs from the model's reservedNames")
+        src = ast.unparse(fns["create_flow_instance"]) + ast.unparse(fns["_start_flow"])
+        if "flow_argument_key" not in src or "flow_parameter_name" not in src:
+            raise TieBroken("create_flow_instance/_start_flow no longer use flow_argument_key/flow_parameter_name")
+    return {"repaired_binding": repaired(), "fingerprints": {k: fingerprint(v) for k, v in fns.items()}, "reserved_start_keys": sorted(start_keys)}
